@@ -173,6 +173,16 @@ def r01_1(ctx):
     f = repo.func(f"{CORE}:Choice.bool_value")
     ctx.analysed(f.qual)
     ret = [n for n in ast.walk(f.node) if isinstance(n, ast.Return) and isinstance(n.value, ast.Name)]
+    direct = [n for n in ast.walk(f.node) if isinstance(n, ast.Return) and isinstance(n.value, ast.Call) and ast.unparse(n.value.func) == "min"]
+    if not ret and direct:
+        # `return min(<mode>, self.visibility)` - the meet is the returned expression itself
+        construct = "Choice.bool_value/mode bounded by visibility"
+        all_ret = [n for n in ast.walk(f.node) if isinstance(n, ast.Return)]
+        if len(all_ret) == len(direct) and all(any(ast.unparse(a) == "self.visibility" for a in n.value.args) for n in direct):
+            ctx.ok(construct, f.loc(direct[-1]), expr=ast.unparse(direct[-1].value))
+        else:
+            ctx.bad(construct, "the choice mode is not the meet of the user mode and the visibility as its last step", f.loc(direct[-1]))
+        return
     if not ret:
         raise AnchorError("Choice.bool_value has no `return <name>`")
     rv = ret[-1].value.id
@@ -670,7 +680,18 @@ def r01_5(ctx):
                 g = c.args[0].generators[0]
                 v = g.target.id if isinstance(g.target, ast.Name) else "?"
                 dflt = [k for k in c.keywords if k.arg == "default"]
-                if ast.unparse(c.args[0].elt) == f"expr_value({v}.prompt[1])" and res.text(g.iter) == f"{sc}.nodes" \
+                elt_text = ast.unparse(c.args[0].elt)
+                # two stages: conds = (n.prompt[1] for n in sc.nodes if n.prompt); max((expr_value(c) for c in conds), default=0)
+                if isinstance(g.iter, ast.Name) and not g.ifs:
+                    inner = [a.value for a in ast.walk(f.node) if isinstance(a, ast.Assign) and len(a.targets) == 1
+                             and ast.unparse(a.targets[0]) == g.iter.id and isinstance(a.value, (ast.GeneratorExp, ast.ListComp))
+                             and len(a.value.generators) == 1]
+                    if len(inner) == 1 and isinstance(inner[0].generators[0].target, ast.Name):
+                        import re as _re
+                        elt_text = _re.sub(rf"\b{_re.escape(v)}\b", ast.unparse(inner[0].elt), elt_text)
+                        g = inner[0].generators[0]
+                        v = g.target.id
+                if elt_text == f"expr_value({v}.prompt[1])" and res.text(g.iter) == f"{sc}.nodes" \
                         and [ast.unparse(i) for i in g.ifs] == [f"{v}.prompt"] and dflt and ast.unparse(dflt[0].value) == "0":
                     ok = True
                     upd = [r_]
